@@ -88,8 +88,8 @@ Print Assumptions C04_sub_no_other_panic.
    mul_table for x*y followed by add_table for (x*y) + u: an invalid product is SNaN
    whatever u; an infinite product gives that infinity unless u is the opposite infinity
    (SNaN); an exact zero product gives u (infinite u: SVal; +-0: the zero-sum sign rule;
-   finite u: SCopyY, see C04_fma_zero_product); x and y both finite: SFinite (C03, and
-   C04_fma_finite_inf for an infinite u).  eff_prec3 = the receiver's precision or, if 0,
+   finite u: SCopyY, see C04_fma_zero_product); x and y both finite: an infinite u is the
+   result (C04_fma_finite_inf states that row on its own), otherwise SFinite (C03).  eff_prec3 = the receiver's precision or, if 0,
    the largest operand precision. *)
 Theorem C04_fma_special : forall zu z x y u,
   WF x -> WF y -> WF u -> 0 <= prec z <= MaxPrec -> (zu = true -> z = u) ->
@@ -108,30 +108,38 @@ Print Assumptions C04_fma_zero_product.
 Theorem C04_fma_finite_inf : forall zu z x y u,
   WF x -> WF y -> WF u -> dform x = Ffinite -> dform y = Ffinite -> dform u = Finf ->
   0 <= prec z <= MaxPrec -> (zu = true -> z = u) ->
-  mdigits (mant x) + mdigits (mant y) < 4294967296 - 18 ->
-  (mag x * mag y < scaled 1 MaxExp)%Q ->
   SpecialPost z (eff_prec3 z x y u) (SVal Finf (neg u)) (FMA zu z x y u).
 Proof. exact FMA_finite_inf. Qed.
 Print Assumptions C04_fma_finite_inf.
 
 (* FMA raises ErrNaN exactly for 0*Inf, Inf*0, and an infinite product plus the opposite
-   infinity.  For ALL operands, canonical or not, except that for finite x, y and infinite u
-   the exact product must stay below 10^MaxExp: beyond it the product is first stored as an
-   infinity and FMA raises ErrNaN on a valid operation (FMA_overflow_inf_nan in
-   L3/SpecialProofs2.v: FMA(1e1999999999, 1e1999999999, -Inf); known finding K3). *)
+   infinity: for ALL operands, canonical or not.  (Before repair F19 a finite product that
+   overflowed the exponent range plus the opposite infinity also raised ErrNaN; regression
+   witness FMA_overflow_inf_ok in L3/SpecialProofs2.v.) *)
 Theorem C04_fma_nan_iff : forall zu z x y u,
-  (dform x = Ffinite -> dform y = Ffinite -> dform u = Finf ->
-     WF x /\ WF y /\ mdigits (mant x) + mdigits (mant y) < 4294967296 - 18 /\
-     (mag x * mag y < scaled 1 MaxExp)%Q) ->
-  ((exists z', FMA zu z x y u = NaNR z') <->
-   (dform x = Fzero /\ dform y = Finf) \/ (dform x = Finf /\ dform y = Fzero) \/
-   ((dform x = Finf \/ dform y = Finf) /\ dform u = Finf /\ xorb (neg x) (neg y) <> neg u)).
+  (exists z', FMA zu z x y u = NaNR z') <->
+  (dform x = Fzero /\ dform y = Finf) \/ (dform x = Finf /\ dform y = Fzero) \/
+  ((dform x = Finf \/ dform y = Finf) /\ dform u = Finf /\ xorb (neg x) (neg y) <> neg u).
 Proof. exact FMA_nan_iff. Qed.
 Print Assumptions C04_fma_nan_iff.
 
+(* FMA on canonical operands never panics with anything else; for finite x, y, u under the
+   preconditions of C03 (exact product within the exponent range, else known finding K3;
+   digit span of the final addition within the uint32 arithmetic) *)
+Theorem C04_fma_no_other_panic : forall zu z x y u,
+  WF x -> WF y -> WF u -> 0 <= prec z <= MaxPrec -> (zu = true -> z = u) ->
+  (dform u = Ffinite -> mdigits (mant u) < 4294967296 - 18) ->
+  (dform x = Ffinite -> dform y = Ffinite -> mdigits (mant x) + mdigits (mant y) < 4294967296 - 18) ->
+  (dform x = Ffinite -> dform y = Ffinite -> dform u = Ffinite ->
+     (scaled 1 (MinExp - 1) <= mag x * mag y)%Q /\ (mag x * mag y < scaled 1 MaxExp)%Q /\
+     (forall p', WF p' -> dform p' = Ffinite -> (mag p' == mag x * mag y)%Q -> add_span p' u + 40 < 4294967296 - 18)) ->
+  FMA zu z x y u <> CrashR.
+Proof. exact FMA_no_crash. Qed.
+Print Assumptions C04_fma_no_other_panic.
+
 (* Not yet stated as theorems (covered by the correspondence run and the
    independent class table of harness/props/C04.py only):
-   C04_sqrt_negative, C04_setfloat64_nan, C04_fma_no_other_panic. *)
+   C04_sqrt_negative, C04_setfloat64_nan. *)
 
 Example C04_witness :
   let pinf := mkDec [] 0 0 ToNearestEven Exact Finf false in
